@@ -14,6 +14,9 @@ Rows and where they are documented:
   strings_vectors    char*/std::string/std::vector in/out/result (tools/gen/libgen.py rows)
   overloads_defaults overloaded functions and trailing default arguments
   enum_ns            enums and nested namespaces
+  struct_in_class    a struct (docs/structs.rst) declared in the library or in a namespace and used by free functions AND by methods
+                     of a class of the same library / namespace (argument by pointer, reference, value; result): every wrapper
+                     header that mentions the C copy of the struct has to include the header that defines it
   assumed_rank       native pointer arguments with +dimension(..) (docs/fortran.rst assumed-rank; F_CFI statement
                      c_native_*_in_cfi with f_module_line) between arguments of OTHER kinds before and after
   fmodule_mix        arguments whose statement entries carry f_module / f_module_line (void*, void**, T** in/out, char scalar,
@@ -26,9 +29,9 @@ import yaml
 
 from tools.gen import libgen
 
-FEATURES = ["assumed_rank", "fmodule_mix", "class_own_header", "class_cpp_if", "callback", "long_args", "long_types", "strings_vectors",
+FEATURES = ["struct_in_class", "assumed_rank", "fmodule_mix", "class_own_header", "class_cpp_if", "callback", "long_args", "long_types", "strings_vectors",
             "overloads_defaults", "enum_ns"]
-CXX_ONLY = {"class_own_header", "class_cpp_if", "long_types", "strings_vectors", "overloads_defaults"}
+CXX_ONLY = {"struct_in_class", "class_own_header", "class_cpp_if", "long_types", "strings_vectors", "overloads_defaults"}
 
 LONGWORDS = ["temperature", "pressure_gradient", "component_index", "number_of_values", "relative_tolerance",
              "boundary_condition_flag", "time_step_size", "state_vector_length", "iteration_counter", "scaling_factor"]
@@ -92,6 +95,25 @@ def f_fmodule_mix(r, idx, language="c++"):
     out.append({"decl": r.choice(["int *raw_result%d(double x) +deref(raw)", "void *opaque_result%d(int x)",
                                   "int *pointer_result%d(int n) +deref(pointer)+dimension(n)"]) % idx})
     return out, []
+
+
+def f_struct_in_class(r, idx):
+    sname = r.choice(["Point", "Cell_descriptor", "Pair"]) + str(idx)
+    cname = r.choice(["Shape", "Mover", "Container_of_cells"]) + str(idx)
+    struct = {"decl": "struct %s { int x; double y; };" % sname}
+    meths = [{"decl": "%s()" % cname}, {"decl": "~%s()" % cname}]
+    pool = ["void move(const %s *p)", "void shift(%s *p +intent(inout), int n)", "int weigh(const %s &p)",
+            "void fill(%s *p +intent(out))", "double norm(%s p)"]
+    for m in r.sample(pool, r.randrange(1, 4)):
+        meths.append({"decl": m % sname})
+    cls = {"decl": "class %s" % cname, "declarations": meths}
+    free = {"decl": "int count_%s(const %s *p, int n)" % (sname.lower(), sname)}
+    where = r.choice(["library", "namespace", "namespace-class-only"])
+    if where == "library":
+        return r.sample([struct, free], 2)[:2] and [struct, free, cls], []
+    if where == "namespace":
+        return [{"decl": "namespace geo%d" % idx, "declarations": [struct, free, cls]}], []
+    return [{"decl": "namespace geo%d" % idx, "declarations": [struct, cls]}, {"decl": "int plain_function%d(int a)" % idx}], []
 
 
 def f_class_own_header(r, idx):
